@@ -442,8 +442,11 @@ GRID_SECTIONS = {"grid", "size", "nmax", "status", "area", "area_views_agree", "
 GRID_TB = ["tables of the grid model are regenerated from raster_grid.hpp / profile_grid.hpp / base.hpp by translate.py on every run",
            "xtensor view assignment semantics of set_nodes_status modelled by hand (tied by exhaustive border-mix correspondence)"]
 
-register("C07", lean_modules=["FsModel.U64", "FsProofs.Properties.C07"],
-         theorems=["Fs.C07.rasterNbIdx_eq_geom", "Fs.C07.codeOffsets_eq_geom", "Fs.C07.count_eq_length", "Fs.C07.count_table_spec",
+register("C07", lean_modules=["FsModel.U64", "FsProofs.Properties.C07", "FsProofs.Properties.C07Sym"],
+         theorems=["Fs.C07.rasterNbIdx_range", "Fs.C07.rasterNbIdx_length", "Fs.C07.rasterNbIdx_count_symm", "Fs.C07.rasterNbIdx_mem_symm", "Fs.C07.rasterNbIdx_not_self",
+                   "Fs.C07.rasterNbDist_length", "Fs.C07.rasterNbDist_eq_geom", "Fs.C07.stepDist_exact", "Fs.C07.stepDist_field", "Fs.C07.rasterNb_dist_symm", "Fs.C07.rasterNb_weighted_symm",
+                   "Fs.C07.profileNbIdx_range", "Fs.C07.profileNbIdx_count_symm", "Fs.C07.profileNbIdx_not_self", "Fs.C07.offs_neg_perm",
+                   "Fs.C07.rasterNbIdx_eq_geom", "Fs.C07.codeOffsets_eq_geom", "Fs.C07.count_eq_length", "Fs.C07.count_table_spec",
                    "Fs.C07.codedTuples_spec", "Fs.C07.offs_valid", "Fs.C07.axis", "Fs.C07.geomOffsets_in_grid",
                    "Fs.C07.profileNbIdx_eq_geom", "Fs.C07.profileCount_spec", "Fs.nbIndex_toNat"], gen=lambda r, t: gen_grids(r, t) + (gen_grids_exhaustive(r, t) if t == "thorough" else []), oracles=[oracle.c07],
          sections=GRID_SECTIONS, nontrivial=grid_nontrivial, tags=tags_grid,
@@ -488,7 +491,10 @@ def c08_runner(P, exe, model_ok, rng, tier, replay=None):
     return res
 
 
-register("C08", lean_modules=['FsModel.Iter'], theorems=['Fs.Iter.skipFwd_log_in_range'], gen=gen_c08, runner=c08_runner, oracles=[], sections=None, nontrivial=lambda si: True, tags=tags_flow, level="proof",
+register("C08", lean_modules=['FsModel.Iter', 'FsProofs.Properties.C08', 'FsProofs.Properties.C07Sym'],
+         theorems=['Fs.Iter.skipFwd_log_in_range', 'Fs.C08.multi_fits', 'Fs.C08.single_fits', 'Fs.C08.multi_recv_row', 'Fs.C08.multi_donors_row', 'Fs.C08.single_donors_row', 'Fs.C08.multi_orders', 'Fs.C08.single_orders',
+                   'Fs.C08.levelOffsets_fit', 'Fs.C08.accumulate_no_write_outside', 'Fs.C08.basins_no_write_outside', 'Fs.C08.accumulate_frame', 'Fs.C08.basins_frame',
+                   'Fs.C07.rasterNbIdx_range', 'Fs.C07.rasterNbIdx_length', 'Fs.C07.rasterNbIdx_count_symm'], gen=gen_c08, runner=c08_runner, oracles=[], sections=None, nontrivial=lambda si: True, tags=tags_flow, level="proof",
          rule="scenario sets of the other properties' generators (grids incl. malformed, all operator families, accumulate, basins, eroders) executed under ASan+UBSan with _GLIBCXX_ASSERTIONS and asserts enabled; every distinct (kind, file:line) report is a failure; index-logic theorems cover all sizes",
          trusted_base=["sanitizers see only executed paths; signed overflow / lifetime errors are covered by sampled sanitizer runs only",
                        "the index-safety theorems speak about the model's access logs, tied to the code by the translator (conjunct order, table widths) and correspondence"])
@@ -615,11 +621,11 @@ _lvl("C06", "proof",
      "END-TO-END theorems on the graphs the executed routers build (any topology in range, any elevations over a strict weak order): single router (both variants): single_donors_inverse (for distinct nodes the donor table is exactly the inverse of the receiver table; donors_nodup), single_dfs (bottom-up order is a permutation of all nodes, every node after its receiver), singleRouter_bfs (breadth-first order is a permutation in non-empty levels, every receiver in a strictly earlier level); the same for ANY graph assembled from a receiver forest (SingleGraph: mem_donors, dfs_perm, dfs_recv_before, single_bfs) - which is how the spanning-tree resolver rebuilds its tables; multi router: multi_donors_inverse (inverse with multiplicity: d is listed among the donors of r once per slot of d's row equal to r), multi_dfs (Kahn-style top-down order reversed: permutation, every node after each of its receivers; kahn_spec), multi_bfs (bfs_levels_spec). Snapshot copies are C16. That the spanning-tree resolver's receiver table is a forest is tied by correspondence + oracle (not proved).",
      "Lean 4 stack/queue/Kahn-counter invariant proofs, composed with the router theorems, on the executed definitions + bit-exact correspondence + table-consistency oracle")
 _lvl("C07", "proof",
-     "Theorems about the executed grid model with the tables regenerated from raster_grid.hpp / profile_grid.hpp on every run: rasterNbIdx_eq_geom (for EVERY raster with >= 2 nodes per axis and < 2^63 nodes, every connectivity, every loop flags and every node, the neighbour indices computed through node code, count table, offset/argument tables and size_t wrap-around arithmetic are exactly the row-major indices of the geometric one-step neighbours - stay inside, wrap only across looped borders, drop otherwise - in the same order), codeOffsets_eq_geom (offsets), count_eq_length + count_table_spec (108-case decide over the regenerated count tables: count accessor = list length), codedTuples_spec / offs_valid (decide over the regenerated argument tuples and offset lists), profileNbIdx_eq_geom (profile grid). Distances, statuses of neighbours, the struct/(row,col) views, symmetry and cache transparency are model definitions or oracle checks tied by the every-accessor correspondence (cache on/off, shuffled and repeated queries, out-parameter overloads with reused buffers).",
-     "Lean 4 proof over all shapes (axis lemma + omega; decide only over regenerated tables) + translator + every-accessor correspondence + geometric oracle")
+     "Theorems about the executed grid model with the tables regenerated from raster_grid.hpp / profile_grid.hpp on every run, for EVERY raster with >= 2 nodes per axis and < 2^63 nodes, every connectivity, loop flags and node: rasterNbIdx_eq_geom (the neighbour indices computed through node code, count table, offset/argument tables and size_t wrap-around arithmetic are exactly the row-major indices of the geometric one-step neighbours - stay inside, wrap only across looped borders, drop otherwise - in the same order), rasterNbIdx_range / rasterNbIdx_length (every neighbour is a node; count accessor = list length <= n_neighbors_max), rasterNbIdx_count_symm / _mem_symm (the relation is symmetric WITH multiplicity - a neighbour met twice across a looped axis of length 2 is met twice from the other side), rasterNbIdx_not_self, rasterNbDist_eq_geom + stepDist_exact / stepDist_field (reported distances are the step length sqrt(dy^2), sqrt(dx^2) or sqrt(dy^2+dx^2) of the geometric offset, in exact arithmetic) and rasterNb_dist_symm (the reverse step has the same distance); the same for the profile grid (profileNbIdx_*); table obligations by decide over the regenerated constants (count_table_spec, codedTuples_spec, offs_valid, offs_neg_perm). Statuses of neighbours, the struct/(row,col) views and cache transparency (cache on/off, shuffled and repeated queries, out-parameter overloads with reused buffers) are tied by the every-accessor correspondence + geometric oracle; rounding of the distances by the bit-exact comparison.",
+     "Lean 4 proof over all shapes (axis lemma + omega, negation bijection on offset symbols; decide only over regenerated tables) + translator + every-accessor correspondence + geometric oracle")
 _lvl("C08", "proof",
-     "Theorem: every status read of the filtered iterator's skip loop is at an index < size when the bounds test precedes the filter (conjunct order regenerated from iterators.hpp each run). Everything else is the sanitizer build: every scenario of the other properties runs under ASan+UBSan+_GLIBCXX_ASSERTIONS; each distinct report is a violation. Partial by nature: Lean proves index logic of the model, not absence of UB in C++.",
-     "Lean 4 access-log theorem + translator (conjunct order) + ASan/UBSan execution of all scenario families")
+     "The LOGIC part of memory safety is proved on the executed model, the rest is sanitizer execution. Theorems: skipFwd_log_in_range (every status read of the filtered iterator's skip loop is at an index < size when the bounds test precedes the filter; conjunct order regenerated from iterators.hpp each run); multi_fits / single_fits (TablesFit: for every topology whose rows are <= n_neighbors_max wide, in range and symmetric with multiplicity - proved for rasters in C07 - every receiver row of the multi router has 1..nmax entries and every donor row <= nmax; single router: exactly 1 receiver and <= nmax+1 donors (the +1 of the donors table is needed: a pit is its own donor); all indices < n; dfs and bfs have exactly n entries < n, <= n non-empty levels, level offsets are nmax-many+1, start at 0, end at n); accumulate_no_write_outside / basins_no_write_outside / *_frame (the sweeps neither read nor write entries >= n). Everything else (use-after-free, lifetime, signed overflow, scratch vectors of the basin graph, eroders) is the sanitizer build: every scenario family of the other properties runs under ASan+UBSan+_GLIBCXX_ASSERTIONS with asserts enabled; each distinct report is a violation. Partial by nature: Lean proves index logic of the model, not absence of UB in C++.",
+     "Lean 4 index-range / row-width theorems on the executed model + translator (conjunct order) + ASan/UBSan/libstdc++-assertion execution of all scenario families")
 _lvl("C09", "proof",
      "The model's update_routes is a pure function of (operators with their parameters, topology, mask, base levels, elevation) by construction; the only input through which the history of the C++ object can reach it is the iteration order of the hash set of base levels, handed over by the harness as a list. Theorems on the executed definitions: pfInit_perm / pflood_perm - for any two base-level lists that are permutations of each other the flood starts from the same state (queue order included, thanks to the (elevation, index) ordering of the queue) and returns the same elevations, for every grid and elevation field over a linear order; all other operators use the base levels only through membership. Correspondence: random histories on one object vs a fresh object vs the model, every observable bit for bit, input array never written.",
      "Lean 4 permutation-invariance proof on the executed flood initialisation + history-vs-fresh differential testing against the pure model")
@@ -851,8 +857,8 @@ register("C15", lean_modules=["FsProofs.Properties.C15", "FsProofs.Properties.C1
          trusted_base=FLOW_TB + ["std::sort tie order of Kruskal is recomputed by the harness with the same comparator and handed to the model, which validates it is a weight-sorted permutation",
                                  "m_max_low_degree regenerated from basin_graph.hpp"])
 _lvl("C15", "proof",
-     "Theorems about the executed Fs.Mst.kruskal (array class map with the accept/reject decisions of the C++ union-find): kruskal_sim (it accepts exactly the edges the abstract class-map Kruskal accepts, for any edge array, any processing order and any number of basins), hence kruskal_spanning (the two basins of every edge handed to Kruskal are connected by tree edges: the tree spans every component of the basin graph) and kruskal_forest (no accepted edge joins basins already connected by earlier tree edges: no cycle, so #tree = #basins - #components). That the processing order is weight-sorted is validated on every run (the harness recomputes std::sort's order; the model checks it is a sorted permutation); minimality of the total weight, the lowest-pass edge construction (connect_basins), Boruvka and orientation are modelled statement by statement, compared exactly, and checked by the independent adjacency-scan + exact-Kruskal oracle (Kruskal = Boruvka weight, orientation away from the root) - not proved.",
-     "Lean 4 simulation proof (executed array Kruskal refines the abstract class-map Kruskal: spanning + forest) + exact correspondence of connect/Kruskal/Boruvka/orient + independent MST-weight oracle")
+     "Theorems about the executed basin-graph model: connect_basins (c15_edge_sound, c15_edge_unique, c15_lowest_pass_exists, c15_lowest_pass, c15_virtual: every real edge joins a node of an inner basin to a neighbouring node of another basin with pass height max of the two elevations; one edge per basin pair; no joining pair is strictly lower than the stored pass; outer basins are linked to the first outer basin = root by virtual edges - for any topology, mask, base levels, under the block structure of the bottom-up order proved in C19); Kruskal: kruskal_sim (the executed array Kruskal accepts exactly what the abstract class-map Kruskal accepts), kruskal_exec_is_spanning_forest, kruskal_exec_min_weight (exchange argument: for a weight-sorted order the tree has minimum total pass elevation among ALL spanning forests of the edge set; validPerm_sorted ties the order the harness hands over), so #tree = #basins - #components; Boruvka (imperative, not reasoned about directly) and the implementation's own output are covered by a CERTIFICATE CHECKER evaluated by the model driver on every basin-graph scenario - certOk on the model's raw tree and certImpl on the edge array and tree REPORTED BY THE C++ - with soundness theorems certOk_sound / certImpl_sound (accepted => spanning forest of minimum total weight among all spanning forests; equal weight multiset as a Kruskal tree) and certOk_kruskal (Kruskal's own tree is always accepted). Orientation away from the root is modelled statement by statement, compared exactly and checked by the oracle (not proved).",
+     "Lean 4 fold-invariant proof (connect_basins) + simulation + exchange-argument minimality proof + proved-sound certificate checker run on model and implementation outputs + exact correspondence of connect/Kruskal/Boruvka/orient + independent MST-weight oracle")
 
 
 # ----------------------------------------------------------------------------- C18
@@ -994,11 +1000,11 @@ register("C13", lean_modules=["FsProofs.Properties.C12", "FsProofs.Properties.C1
 for _p in ("C12", "C13"):
     PROPS[_p]["trusted_base"] = SPL_TB
 _lvl("C12", "proof",
-     "Theorems about the executed definition Fs.Spl.nodeStep over an arbitrary linearly ordered field with abstract pow >= 0: nodeStep_skip (terminal nodes - own receiver: base levels, pits, masked - and nodes not above their lowest receiver's new level are left untouched, for both paths), nodeStep_linear (closed-form path = clamp(floor, solve) of the contributing receivers; other entries untouched), spl_floor (the new elevation is never below the lowest new receiver elevation: no slope reversal), spl_nonneg (erosion >= -tiny when K, dt >= 0, distances > 0 and every receiver's erosion is >= -tiny: the inductive step of non-negativity along the order), for any number of receivers. The Newton path (slope exponent != 1), the rejection of non-linear exponents on multiple-direction graphs and overflow (D13) are tied by the bit-exact correspondence and the oracle only.",
-     "Lean 4 ordered-field proofs on the executed sweep step + translator-regenerated classification/exit test + bit-exact correspondence + sign/lake/floor oracle")
+     "Theorems about the executed Fs.Spl.nodeStep / erode over an arbitrary linearly ordered field with abstract pow >= 0, lifted to the WHOLE sweep (sweep_final: along a duplicate-free bottom-up order every node's final erosion is the one its own step wrote, computed from receivers that were already final): erode_zero (base levels, pits, masked nodes and nodes at or below their lowest receiver's new level get zero erosion), erode_floor (the new elevation is never below the lowest new elevation among the receivers: no slope reversal, no new depression), erode_nonneg (every erosion >= -tiny for K, dt >= 0 and positive distances), erode_look (the returned array is that table), for any number of receivers on the closed-form path; per-node: nodeStep_skip, nodeStep_linear, spl_floor, spl_nonneg. Non-negativity on the Newton path, the rejection of non-linear exponents on multiple-direction graphs and overflow (D13) are tied by the bit-exact correspondence and the oracle only.",
+     "Lean 4 ordered-field proofs on the executed sweep (per-node step lifted along the bottom-up order) + translator-regenerated classification/exit test + bit-exact correspondence + sign/lake/floor oracle")
 _lvl("C13", "proof",
-     "Theorem about the executed definition Fs.Spl.nodeStep (closed-form path, exact arithmetic): spl_residual - whenever the step is not limited, new elevation - old + sum over the contributing (not higher) receivers of factor * (new - receiver's new elevation) = 0 with factor = K dt (A w)^m / distance, for any number of receivers. For slope exponents != 1 the Newton iteration is modelled statement by statement (exit test regenerated from the source) and compared bit for bit; that its accepted iterate meets the tolerance is checked by the residual oracle on every run, not proved.",
-     "Lean 4 field proof of the implicit equation on the executed step + bit-exact correspondence of the Newton path + residual oracle")
+     "Theorems about the executed Fs.Spl.nodeStep / erode (exact arithmetic): erode_residual (closed-form path, any number of receivers: whenever the step is not limited, new - old + sum over the contributing receivers of K dt (A w)^m / distance * (new - receiver's FINAL new elevation) = 0), newton_exit / newton_none_iff (the Newton loop returns either an iterate that passes the exit test regenerated from the source - two-sided |func| <= tol - or a non-positive next iterate; none only when the fuel is exhausted), nodeStep_newton_single + spl_newton_residual + erode_newton_residual (slope exponent != 1, single receiver: the new elevation is receiver's new elevation + accepted iterate, clamped as on the linear path, and when not limited with a positive accepted iterate the backward-Euler residual new - old + K dt (A w)^m / d^n * pow(new - receiver's new, n) is within the Newton tolerance), for every positive exponent (pow abstract). Convergence of Newton (that an accepted iterate exists within the fuel) is not proved: tied by bit-exact correspondence and the residual oracle.",
+     "Lean 4 field proofs of the implicit equation on the executed sweep (closed form and Newton exit) + bit-exact correspondence of the Newton path + residual oracle")
 
 
 
@@ -1068,8 +1074,8 @@ register("C14", lean_modules=["FsProofs.Properties.C14", "FsProofs.Properties.C1
          trusted_base=["ADI theorems are over a field (exact arithmetic); rounding is covered by the bit-exact correspondence and the oracle's condition-number-scaled tolerance",
                        "xtensor expression evaluation order mirrored by hand in Fs.Adi (tied by bit-exact comparison)"])
 _lvl("C14", "proof",
-     "Theorems about the executed definitions Fs.Adi.thomas / solveRow over an arbitrary (ordered) field: thomas_solves (whenever the Thomas sweep returns, its result satisfies the first, every interior and the last row of the tridiagonal system, any size), solveRow_equations (each interior row of a half step keeps the two border values and satisfies at every interior column the implicit equation -(f0 dt) x(c-1) + (1 + 2 f1 dt) x(c) - (f2 dt) x(c+1) = (1 - 2 g1 dt) e(r,c) + g0 dt e(r-1,c) + g2 dt e(r+1,c), i.e. the Peaceman-Rachford half step with the factor tables), solveRow_isSome + adi_pivots_ne_zero (for non-negative face factors and dt every pivot is >= 1: erode never throws), factors*_mid / factorsCol_nonneg (the tables set_factors builds have centre = mean of the two face factors and are non-negative for K >= 0, scalar and array). The second half step is the same function on transposed data (by definition of erode). Linearity and scalar = uniform array follow from uniqueness in exact arithmetic and are checked by the exact-rational oracle, not stated as theorems.",
-     "Lean 4 field proofs (Thomas elimination, diagonal dominance) on the executed definitions + bit-exact correspondence + exact-rational direct-solve oracle")
+     "END-TO-END theorems about the executed Fs.Adi.erode over an arbitrary ordered field: erode_spec (the returned erosion is elevation minus the result of two half steps, each satisfying HalfStepSpec: border rows/columns copied and at every interior node the Peaceman-Rachford equation -(f0 dt) x(c-1) + (1 + 2 f1 dt) x(c) - (f2 dt) x(c+1) = (1 - 2 g1 dt) e + g0 dt e(r-1) + g2 dt e(r+1), implicit along columns then - on transposed data - along rows: SecondHalfStepSpec), erode_border_zero (zero erosion on the four borders), halfStep_ne_none / erode_isSome_array (for K >= 0, dt >= 0 every pivot is >= 1: erode never throws), scalar_eq_uniform (scalar diffusivity = uniform array, as functions), erode_linear (the map from elevation to erosion is linear), thomas_solves / thomas_linear, factors*_mid / *_nonneg (face-averaged factor tables: centre = mean of the faces, non-negative). Uniqueness of the half-step solutions (needed to read erode_spec as a full determination) is not proved; the exact-rational direct-solve oracle covers it. The eroder object is kept across steps with set_k_coef in between (state must not leak).",
+     "Lean 4 field proofs (Thomas elimination, diagonal dominance, linearity) composed to the executed two-half-step erode + bit-exact correspondence + exact-rational direct-solve oracle")
 
 
 # ----------------------------------------------------------------------------- C11
@@ -1193,14 +1199,16 @@ register("C11", gen=gen_pool, runner=c11_runner, oracles=[oracle.c11], cause=ora
          tags=pool_tags, sections={"blocks", "pool_done", "pause_paused", "resume_paused", "resize_size", "stop_stopped", "grid"} | {"run%d" % i for i in range(12)} | {"run%d_once" % i for i in range(12)},
          lean_modules=["FsProofs.Properties.C11"],
          theorems=["Fs.C11.blocks_exact", "Fs.C11.blocks_empty", "Fs.C11.index_in_unique_block", "Fs.C11.source_notifies_under_mutex",
-                   "Fs.C11.source_publication", "Fs.C11.source_rejects_lost_wakeup_schedule", "Fs.C11.no_stuck_state", "Fs.Hb.publication_iff"],
+                   "Fs.C11.source_publication", "Fs.C11.source_rejects_lost_wakeup_schedule", "Fs.C11.no_stuck_state", "Fs.Hb.publication_iff",
+                   "Fs.C11.source_protocol_shape", "Fs.C11.exactly_once", "Fs.C11.no_stuck_state4", "Fs.C11.no_infinite_run",
+                   "Fs.Pool4.inv_step", "Fs.Pool4.at_most_once_in_flight", "Fs.Pool4.no_stranded_flag", "Fs.Pool4.between_calls", "Fs.Pool4.terminates"],
          rule="(a) blocks(first,last,N,min): quick = 2400 sampled, thorough = all with last-first <= 40, N <= 12, min <= 12 (exhaustive); (b) API programs (the router's resume/resize/run_blocks/pause pattern, plus free mixes of run/pause/resume/resize/stop) on 1..4 (thorough ..16) workers under injected schedules: none, a thread held at one of the eight guarded schedule points (the windows the protocol model distinguishes), or seeded random delays; every program runs under ASan/UBSan and again under the thread sanitizer; non-trivial = block arithmetic, or a program on >= 2 workers",
          trusted_base=["C++ memory model reduced to a view-based release/acquire fragment (Fs.Hb); mutex/condition-variable semantics modelled at contract level (notify_all wakes exactly the threads inside wait; no spurious wake-ups)",
                        "delay injection explores interleavings by timing, it cannot force every schedule; resize/stop/destruction are exercised but not part of the protocol model",
                        "memory orders and 'notify under the mutex' are regenerated from thread_pool_inl.hpp by translate.py"])
 _lvl("C11", "proof",
-     "Theorems: blocks_exact / index_in_unique_block (for every range, pool size and minimum size the blocks of the executed function mkBlocks are at most pool-size many, non-empty, contiguous, and every index lies in exactly one); no_stuck_state (transition system with N workers, flags, mutex, condition variable: for every N, every library-issued program of run_blocks/pause/resume and every interleaving, a state whose caller has not finished has an enabled thread - no lost wake-up, no deadlock), valid for the source because source_notifies_under_mutex is re-decided from the regenerated flag; source_publication (release/acquire orders regenerated from the source give happens-before for job data and results). resize/stop/destruction and real C++ data races are covered by the sanitizer runs only (partial).",
-     "Lean 4 inductive invariant over all interleavings + Nat arithmetic proofs + decide over translator-regenerated memory orders; correspondence: schedule-injection harness (guarded hooks) under ASan and TSan")
+     "Theorems: blocks_exact / index_in_unique_block (for every range, pool size and minimum size the blocks of the executed function mkBlocks are at most pool-size many, non-empty, contiguous, and every index lies in exactly one); protocol model Fs.Pool4 (N workers, per-worker job flags, mutex, condition variable, stopped flag, caller programs of run_blocks / pause / resume / stop / resize as the library issues them, every interleaving): exactly_once (between API calls every worker has run its block exactly once per run_blocks call that gave it one; at_most_once_in_flight inside a call), no_stuck_state4 (a state whose caller has not finished always has an enabled thread: no lost wake-up, no deadlock, also through stop / join / resize / destruction while paused), no_infinite_run / terminates (a lexicographic measure decreases at every step: every fair execution terminates), no_stranded_flag, between_calls; the model transcribes the source's steps, which are re-checked on every run (source_protocol_shape: pause waits, publishes, then spins until all workers are counted; resume notifies under the mutex then waits; run_tasks resumes when paused; run_blocks waits; stop sets the flag, resumes if paused, joins; the worker tests stopped, then the flag, runs, clears; resize stops then resets - decide over facts regenerated from thread_pool_inl.hpp; source_notifies_under_mutex); source_publication (release/acquire orders regenerated from the source give happens-before for job data and results). The earlier 3-op model (no_stuck_state) is kept. Real C++ data races and spurious wake-ups are outside the model: covered by the TSan / schedule-injection runs only (partial).",
+     "Lean 4 inductive invariant + progress + well-founded termination over all interleavings (any N) + Nat arithmetic proofs + decide over translator-regenerated protocol shape and memory orders; correspondence: schedule-injection harness (guarded hooks) under ASan and TSan")
 
 
 # ----------------------------------------------------------------------------- C10
@@ -1301,10 +1309,11 @@ register("C10", gen=gen_parallel, runner=c10_runner, oracles=[oracle.c10], watch
          nontrivial=lambda si: sum(1 for c in si.calls if c.cmd == "graph") >= 2 and any(c.cmd == "kernel" and int(c.toks[2]) > 1 and "kernel" in c.O for c in si.calls),
          tags=par_tags, sections={"update", "elev", "acc", "acc_overloads_agree", "basins", "outlets", "pits", "kernel", "kvisits", "graph"} | GRAPH_SECTIONS,
          rule="cached raster, cache-less raster, profile and mesh grids; operator families with a single router (plain, flooded, spanning-tree resolved, followed by a multi router); every scenario runs the same 1-3 updates (+ accumulate, basins, kernels) first with sequential routers, then with 2..16 threads; kernels applied sequentially and with thread counts 2..16 x minimum block sizes x minimum level sizes in breadth-first / any / depth-first order; everything under ASan and again under the thread sanitizer; non-trivial = both graphs ran and a multi-threaded kernel returned",
-         lean_modules=["FsProofs.Properties.C10"],
-         theorems=["Fs.C10.par_rows_eq_seq", "Fs.C10.par_tables_eq_seq", "Fs.C10.source_nocache_per_thread", "Fs.Commute.schedules_agree", "Fs.C11.index_in_unique_block", "Fs.C11.no_stuck_state"],
+         lean_modules=["FsProofs.Properties.C10", "FsProofs.Properties.C10Kernel"],
+         theorems=["Fs.C10.kernel_par_eq_seq", "Fs.C10.multi_kernel_par_eq_seq", "Fs.C10.single_kernel_par_eq_seq", "Fs.C10.level_nonInterfering", "Fs.C10.level_par_eq_seq", "Fs.C10.kernel_par_exists", "Fs.C10.blockSlices_global",
+                   "Fs.C10.par_rows_eq_seq", "Fs.C10.par_tables_eq_seq", "Fs.C10.source_nocache_per_thread", "Fs.Commute.schedules_agree", "Fs.C11.index_in_unique_block", "Fs.C11.no_stuck_state", "Fs.C11.exactly_once"],
          trusted_base=FLOW_TB + ["footprints of the per-node router task (own receiver row, own neighbour buffer) are read off the source by hand; the storage class of the pass-through neighbour buffer is regenerated by translate.py",
                                  "thread interleavings are explored by the OS scheduler under TSan/ASan and by repeated runs, not enumerated"])
 _lvl("C10", "proof",
-     "Theorems: schedules_agree (tasks whose write sets are pairwise disjoint and disjoint from the others' read sets end in the same memory state under every interleaving), par_rows_eq_seq / par_tables_eq_seq (the model's multi-threaded router is the sequential per-node function applied to every node: receivers, distances, weights and the donor lists without self entries - hence the traversal orders computed from them - coincide), source_nocache_per_thread (the pass-through neighbour buffer is per thread in the source, re-decided each run), with the pool theorems of C11 (each index in exactly one block; no hang). The level-synchronous kernel dispatch is tied by correspondence/oracle only.",
-     "Lean 4 non-interference induction over interleavings + model equality seq/par + translator flag; correspondence under ASan and TSan with sequential-vs-parallel oracle")
+     "Theorems: kernel_par_eq_seq (model of apply_kernel_par: levels in turn with a barrier, each level split by the executed block arithmetic mkBlocks into one task per worker or run by the caller below min_level_size; a node step reads the node and its receivers and writes the node: whenever the levels are duplicate-free and every receiver lies in a strictly earlier level, EVERY complete interleaving of every level, for every thread count, minimum block size and minimum level size, ends in the memory of the sequential breadth-first sweep), instantiated for the graphs the executed routers build (multi_kernel_par_eq_seq, single_kernel_par_eq_seq, using the BFS theorem of C06), kernel_par_exists (non-vacuity), blockSlices_global (per-level slices = the global-index blocks run_blocks computes); schedules_agree (non-interfering tasks end in the same memory under every interleaving); par_rows_eq_seq / par_tables_eq_seq (the model's multi-threaded router is the sequential per-node function: receivers, distances, weights, donor lists without self entries and hence the traversal orders coincide); source_nocache_per_thread (the pass-through neighbour buffer is per thread in the source, re-decided each run); with the pool theorems of C11 (each index in exactly one block, each block run exactly once, no hang). A node step is one atomic action in the model; races inside getter/func/setter and in the C++ memory model are covered by the TSan runs only.",
+     "Lean 4 non-interference induction over interleavings composed with the BFS-level theorem and the block arithmetic + model equality seq/par + translator flag; correspondence under ASan and TSan with sequential-vs-parallel oracle")
